@@ -232,4 +232,32 @@ PROPS = {
         ],
         "assumptions": ["as C04; readers hold an fd to an immutable file (C06)"],
     },
+    "C08": {
+        "modules": ["CasModel.Props.C08", "CasModel.Props.C04"],
+        "obligations": ["C08_orphans_exact", "C08_missing_exact", "C08_corrupted_exact", "C08_invalid_exact",
+                        "seen_iff", "classify_orphan", "classify_corrupt", "classify_invalid",
+                        "fromCanonicalPath_iff", "step_concInv", "assemble_unlink", "C04_inflight_blob_safe"],
+        "full": ["C08_orphans_exact", "C08_missing_exact", "C08_corrupted_exact", "C08_invalid_exact"],
+        "slices": [("c08", 120, 4000), ("c08crash", 15, 600), ("c08conc", 120, 4000)],
+        "trusted": [
+            "scan: model Orphan.lean (scan_orphans after the F5 repair a12b3f8: a file is a blob only at the canonical path of its hash); exactness theorems hold for EVERY list of regular files below cas/ (depth ≤ 3) and every index, hence on every crash image; directories at depth 3 and deeper nesting are outside the model (and outside 'regular files')",
+            "clean-up safety under concurrency: the orphan clean-up steps are part of the interleaving model; step_concInv shows an orphan unlink happens only for a hash that is unreferenced and unprotected while the intents lock is held, so it never removes a referenced blob or one a concurrent put is committing (C04_inflight_blob_safe)",
+            "clean-up completeness (C07 restored) is compared: cas/ and staging/ listings after delete_orphans on planted garbage and on every crash image of the crash slice",
+            "corrupted detection uses the real BLAKE3 via mmap+rayon; the model uses its own BLAKE3; sizes from std::fs::metadata",
+        ],
+        "assumptions": ["planted garbage consists of regular files (no symlinks/special files)", "hashes are 32 bytes"],
+    },
+    "C09": {
+        "modules": ["CasModel.Props.C09", "CasModel.Props.C03"],
+        "obligations": ["C09_blob_durable", "C09_sync_before_rename", "C09_snapshot_order", "C09_record_order",
+                        "C09_powerLoss_synced_noop", "C03_crash_atomic_records", "C01_put_then_get"],
+        "full": ["C09_blob_durable", "C09_sync_before_rename", "C09_snapshot_order", "C09_record_order"],
+        "slices": [("c09", 40, 1500)],
+        "trusted": [
+            "loss model exactly as the property states it (Disk.powerLoss): each file keeps the prefix covered by its last fsync/fdatasync; create/rename/unlink persist in issue order. Real power loss / filesystem reordering cannot be executed here",
+            "proved over the event scripts, for all states/keys/contents/chunkings: blob fully synced before it is renamed into cas/ (Sync mode); snapshot written+synced before it replaces index, prunes only afterwards; record written in one write and synced before deletions, checkpoint and return; power loss is a no-op on fully synced files. With C03's record-level theorem (any prefix of records recovers) this yields C09 per operation",
+            "NOT yet a single theorem over whole histories (that at EVERY cut every file but the active segment's in-flight record is fully synced): tied by the power-loss slice — the real syscall trace incl. every sync event must equal the model's, and loss images rebuilt from the real trace at every cut (files: all / single segment / index) are reopened by the real code and by the model",
+        ],
+        "assumptions": ["Sync mode (Async promises no ordering)", "fdatasync makes the current content durable"],
+    },
 }
